@@ -69,6 +69,7 @@ type Req struct {
 	BatchOnce  []uint64 `json:"batch_fail_once,omitempty"` // ... a nil entry in the FIRST multi-signature call of this request that includes the member, a signature in later ones
 	BatchZero  []uint64 `json:"batch_zero,omitempty"`  // ... with an all-zero signature object for this member
 	BatchErr   []uint64 `json:"batch_err,omitempty"`   // a multi-signature call made ON this account fails as a whole
+	SingleOnce []uint64 `json:"single_fail_once,omitempty"` // only the first single-signature call made on this account for this request fails
 	SingleFail []uint64 `json:"single_fail,omitempty"` // the single-signature methods of this account fail (batch calls sign for it)
 	Batch   []int  `json:"batch"`              // positions in Pool, in request order (single-account kinds use Batch[0])
 
@@ -301,7 +302,7 @@ func runInput(t *testing.T, in Input, level zerolog.Level) []Observed {
 
 // runStep makes one request (in is a single-request view of the session) to the session's service.
 func runStep(t *testing.T, svc *standardsigner.Service, dp *domainProvider, rec *recorder, pool []e2wtypes.Account, bases []*base, in Input) Observed {
-	env := &stepEnv{fail: in.DomFail, batchFail: keySet(in.BatchFail), batchZero: keySet(in.BatchZero), batchOnce: keySet(in.BatchOnce), batchErr: keySet(in.BatchErr), singleFail: keySet(in.SingleFail)}
+	env := &stepEnv{fail: in.DomFail, batchFail: keySet(in.BatchFail), batchZero: keySet(in.BatchZero), batchOnce: keySet(in.BatchOnce), batchErr: keySet(in.BatchErr), singleFail: keySet(in.SingleFail), singleOnce: keySet(in.SingleOnce)}
 	ctx := withStepEnv(context.Background(), env)
 	accounts := make([]e2wtypes.Account, len(in.Batch))
 	for i, p := range in.Batch {
@@ -513,7 +514,7 @@ func term(id uint64, in Input, obs Observed) string {
 		roots[i] = hexN(r)
 	}
 	return Record("c_id", N(id), "c_chain", chain, "c_svc", svc, "c_dom_fail", Bool(in.DomFail),
-		"c_batch_fail", nList(in.missKeys()), "c_batch_err", nList(in.BatchErr), "c_single_fail", nList(in.SingleFail),
+		"c_batch_fail", nList(in.missKeys()), "c_batch_err", nList(in.BatchErr), "c_single_fail", nList(append(append([]uint64{}, in.SingleFail...), in.SingleOnce...)),
 		"c_req", in.reqTerm(),
 		"c_out", out, "c_verified", List(ver), "c_roots", List(roots))
 }
